@@ -15,6 +15,7 @@ From NB Require Import Merge.Decisions.
 From NB Require Import Merge.Apply.
 From NB Require Import Merge.MergeGeneric.
 From NB Require Import Gen.MergeFacts.
+From NB Require Import Gen.NbConfig.
 Import ListNotations.
 
 Definition no_conf (B : list decision) : Prop := Forall (fun d => d_conflict d = false) B.
@@ -783,8 +784,7 @@ End Separated.
 
 (* ---------- non-vacuity and the symmetry counterexample ---------- *)
 Definition O0 : oracles := {| o_sim := fun _ _ => false; o_opcodes := fun _ _ => []; o_cell := fun _ _ _ => false; o_output := fun _ _ _ => false |}.
-Definition cfg0 : config := {| c_predicates := []; c_pred_default := [PStrictEq]; c_pred_keys := []; c_differs := [];
-  c_differ_default := DfDiff; c_atomic := []; c_split_mimes := []; c_generic_pred := [PStrictEq]; c_dict_strict := true; c_mime_strict := true |}.
+Definition cfg0 : config := Gen.NbConfig.generic_config.   (* the generated default configuration of generic.diff *)
 Definition ka : pystr := [97%N].
 
 (* the hypotheses of the one-sided / agreement / separated theorems are satisfiable with non-empty diffs *)
